@@ -241,7 +241,11 @@ theorem pre_refs (cfg : Cfg) (impl : Impl) (c : Conn) (t : Msg) (h : RefsPos c.f
             · refine ⟨hfs, fun k => ?_⟩
               dsimp only
               rw [refOf_new _ _ _ _ _ hnew, count1]
-            · rename_i ar hla
+            · rename_i ar hla0
+              have hla : Srv.lookup fs afid = some ar := by
+                split at hla0
+                · cases hla0
+                · exact hla0
               repeat' split
               all_goals
                 refine ⟨?_, fun k => ?_⟩ <;> dsimp only
